@@ -38,7 +38,7 @@ def _is_sum_axis0(v, target):
     if not isinstance(v, ast.Call):
         return None
     f = v.func
-    if isinstance(f, ast.Attribute) and f.attr == "sum":
+    if isinstance(f, ast.Attribute) and f.attr in ("sum", "nansum"):
         if isinstance(f.value, ast.Name) and f.value.id == "np" and v.args and ast.unparse(v.args[0]) == target:
             return kw(v, "axis", v.args[1] if len(v.args) > 1 else ast.Constant(None))
         if ast.unparse(f.value) == target:
@@ -85,6 +85,11 @@ def level2_superposition(repo, res):
                         sum_stmts[id(s)] = (s, ax)
     res.require(sum_stmts, "anchor vanished: no `if sumup: B = np.sum(B, axis=..)` reduction in getBH_level2")
     for s, ax in sum_stmts.values():
+        plain = getattr(s.value.func, "attr", "") == "sum"
+        res.ob(f"SUM-KIND:{norm(s)}", plain, {"rule": "SUM-KIND", "stmt": norm(s)}, nontrivial=False)
+        if not plain:
+            res.add(Finding("SUM-KIND", WREL, "getBH_level2", s, "sumup uses a nan-ignoring sum: where one source's field is undefined (nan at a Triangle corner / mesh vertex) "
+                            "sumup=True returns the field of the remaining sources, unlike the sum of the sumup=False result and unlike a Collection of the same sources", s.lineno))
         ok = isinstance(ax, ast.Constant) and ax.value == 0
         res.ob(f"SUM-AXIS:{norm(s)}", ok, {"rule": "SUM-AXIS", "stmt": norm(s), "axis": ast.unparse(ax)})
         if not ok:
